@@ -23,7 +23,8 @@ REQUIRED = {
 }
 ASSUMPTIONS = [
     "addOnException handlers that raise are excluded (documented to halt test processing)",
-    "an empty MultipleExceptions() is excluded (no constituent, no outcome by construction)",
+    "a fixture used from ANOTHER fixture's _setUp is not interrupted (KeyboardInterrupt / SystemExit): the fixtures "
+    "library's own Fixture.useFixture (4.3.2) replaces that by a TypeError before testtools sees anything",
     "most programs run on the plain RunTest; 30 % of the random ones on SynchronousDeferredRunTest / "
     "AsynchronousDeferredRunTest (virtual-time reactor), without skip decorators for the latter",
 ]
@@ -181,7 +182,8 @@ def x_prog(ctx, case):
 SUBCHECKS = {"prog": x_prog}
 
 FEATURES = ("own_exc", "expect", "force", "decor", "noupcall", "nested_cleanup", "truthy_return",
-            "mismatch_details", "handlers", "clone", "xfail_decor", "eq_exc", "setup_returns", "details")
+            "mismatch_details", "handlers", "clone", "xfail_decor", "eq_exc", "setup_returns", "details", "fixture",
+            "old_style_fixture")
 
 
 def run(ctx):
